@@ -61,12 +61,14 @@ CHECKS = {
             'capability list the client holds - greeting included - is the bit the state machine acts on) are proved in Lean for every command sequence. '
             'Tie: the C05 machinery with an alphabet of every way to present credentials (LOGIN, PLAIN, LOGIN mech, authzid with/without admin role, cancel, malformed base64, unknown mechanism) in three TLS/peer '
             'configurations, identity observed through LIST; random credential byte strings never authenticate; the ManageSieve listener is driven with failed/successful AUTHENTICATE sequences against the Sieve model.',
+            'Real-socket leg: IMAPServer and ManageSieveServer on loopback with a real TLS handshake; STARTTLS plus further commands written in one clear-text segment are never acted on after the handshake. '
             'Trusted: as C05. Credential verification (pysasl, password hashing) is an oracle: which credentials verify is known to the fixture, not modelled. TLS is a stub.',
             'DESIGN.md section 6 C09'),
     'C19': ('Lean 4 theorems (gate, well-formedness invariant, refinement to a name-to-bytes map with one active name, isolation) + exhaustive small-scope and random differential correspondence',
             'C19_gate, C19_wf, C19_put_get, C19_put_frame, C19_list, C19_delete_active, C19_delete, C19_rename, C19_isolation are proved in Lean over the model of ManageSieveConnection.run, FilterState and the dict FilterSet. '
             'Tie: every reply of a real ManageSieveServer (incl. LISTSCRIPTS order and active mark, script bytes) is diffed with the model on all command-kind sequences of length 2 (thorough 3) before and after '
             'authentication and on random multi-connection two-user programs; an independent Python reference map and a before/after dump of all stores around unauthenticated script commands are the monitors.',
+            'Maildir backend (one script per user, SingleFilterSet): no model applies; monitor "what was acknowledged holds" (PUTSCRIPT OK then GETSCRIPT/LISTSCRIPTS, refusals change nothing, gate, isolation); the one-slot design is known finding D80. '
             'Trusted: as C05. The sieve compiler is an oracle (CHECKSCRIPT).',
             'DESIGN.md section 6 C19'),
     'C11': ('Lean 4 theorems over the namespace model (wildcard matcher, ListTree entries, create/delete/rename with object identities) + differential correspondence + EXAMINE-based existence monitor',
@@ -91,8 +93,8 @@ CHECKS = {
             'Trusted: Lean kernel, axioms propext/Classical.choice/Quot.sound, the harness. String matching (email package, re) is an oracle of the model; messages are plain ASCII so that "contains" is unambiguous.',
             'DESIGN.md section 6 C13'),
     'C18': ('Lean 4 round-trip theorems (quoted strings, modified UTF-7 for all Unicode scalar values) + L1 differential correspondence + spelling-equivalence monitor on the wire',
-            'C18_roundtrip_quoted (parse(ser v ++ rest) = (v, rest)), C18_roundtrip_number, C18_modutf7 (decode(encode s) = s for every list of scalar values), C18_encode_ascii, C18_framing (whatever the {n+} literals contain, the reader takes exactly the command) are proved in Lean. '
-            'Tie: IMAPConnection.readline vs Framing.readCmd on hostile streams; QuotedString/String.build/modutf7_encode/decode '
+            'C18_roundtrip_quoted (parse(ser v ++ rest) = (v, rest)), C18_roundtrip_number, C18_modutf7 (decode(encode s) = s for every list of scalar values), C18_encode_ascii, C18_framing (whatever the {n+} literals contain, the reader takes exactly the command), C18_astring_spelling (the atom, quoted and {n+} spellings of any value parse to the same value and rest, or are all refused over the length limit) are proved in Lean. '
+            'Tie: IMAPConnection.readline vs Framing.readCmd on hostile streams; AString.parse vs AStr.parse on spelled values and junk under both limits; QuotedString/String.build/modutf7_encode/decode '
             'vs the Wire and ModUtf7 models on hostile values. Monitors: round trips of literals, astrings, numbers, sequence sets, flags, date-times through the real parsers; an independent RFC 3501 5.1.3 encoder; whole command '
             'programs replayed under random spellings (atom/quoted/{n}/{n+}, command-word case) must answer and leave state identically; LIST reports names that decode to the created names.',
             'Trusted: as C13. The lenient utf-7 decoder of Python on non-canonical input is not modelled (one-sided correspondence). Parsers of numbers/sets/flags/dates have no Lean model yet (monitored only).',
@@ -110,7 +112,7 @@ CHECKS = {
             'Trusted: as C13. Partial by construction: the email package, re and codecs are not modelled; the command-line parser itself has no Lean model yet (C06_parse_total is not claimed). Known findings D47, D48, D49.',
             'DESIGN.md section 6 C06'),
     'C20': ('Lean 4 invariants over a transition system of the read-write lock on a model of asyncio.Lock (any number of tasks, any schedule, cancellation anywhere) and of the lock-file lock + exhaustive schedule exploration of the real primitive',
-            'C20_exclusion and C20_cancel_safe (reader counter = number of readers between acquire and release after cancelling any waiter) are proved for the RWLock model; C20_file_exclusion and C20_file_released for the FileLock model. '
+            'C20_no_deadlock (in every reachable state with an unfinished task some task can take a step), C20_terminates (every schedule is finite), C20_exclusion and C20_cancel_safe (reader counter = number of readers between acquire and release after cancelling any waiter) are proved for the RWLock model; C20_file_exclusion and C20_file_released for the FileLock model. '
             'Tie: pymap\'s real asyncio read-write lock under a deterministic scheduler; every step of every explored schedule (DFS over all schedules with at most one cancellation of all 2-task programs, thorough 3-task; random for 4) is replayed '
             'in the model and who-is-inside/waiting/finished plus the counter compared. Monitors: no overlap with a writer, drainable (no deadlock), usable and counter 0 afterwards; FileLock writers with yields, exceptions, cancellations, stale files.',
             'Trusted: Lean kernel, axioms propext/Classical.choice/Quot.sound, the harness. asyncio.Lock semantics (CPython 3.12) are modelled, validated by the correspondence, not proved; C20_no_deadlock is explored, not proved; threading twin not modelled; '
